@@ -20,6 +20,8 @@ Report(j, prop, entry, detail) ==
     IN PrintT("REJECT " \o ToJson([i |-> j, prop |-> prop, op |-> entry, a |-> <<>>, res |-> "", detail |-> detail, known |-> shown]))
 
 SpanSet(s) == {[id |-> s[j].id, kind |-> s[j].kind, s |-> s[j].s, e |-> s[j].e] : j \in 1..Len(s)}
+\* the same with every text span reaching over the empty CDATA sections directly behind the node's last characters
+SpanSetAlt(s) == {[id |-> s[j].id, kind |-> s[j].kind, s |-> s[j].s, e |-> IF s[j].kind = "text" THEN s[j].e1 ELSE s[j].e] : j \in 1..Len(s)}
 
 WrapToks(toks) ==
     LET T(k, parts, ln) == [k |-> k, parts |-> parts, px |-> "", ln |-> ln, empty |-> FALSE, attrs |-> <<>>, pieces |-> <<>>,
@@ -62,7 +64,7 @@ JudgeRun(j, e, r, D) ==
                   => Report(j, "C02", r.entry, <<"tree differs from the denoted document", TreeDiff(r.tree.n, D.N)>>)
             /\ (r.res = "ok" /\ \E q \in 1..Len(r.ids) : r.ids[q][2] # IdExpected(D, r.ids[q][1]))
                   => Report(j, "C02", r.entry, <<"xml_id_node", {r.ids[q] : q \in {x \in 1..Len(r.ids) : r.ids[x][2] # IdExpected(D, r.ids[x][1])}}>>)
-            /\ (r.res = "ok" /\ HasSpans(r) /\ SpanSet(r.spans) # SpanSet(D.spans))
+            /\ (r.res = "ok" /\ HasSpans(r) /\ SpanSet(r.spans) # SpanSet(D.spans) /\ SpanSet(r.spans) # SpanSetAlt(D.spans))
                   => Report(j, "C17", r.entry, <<"spans", SpanSet(r.spans) \ SpanSet(D.spans), "expected", SpanSet(D.spans) \ SpanSet(r.spans)>>)
          ELSE r.res = "ok" => Report(j, "C03", r.entry, <<"ill-formed text accepted", D.why, e.dmg>>)
 
